@@ -39,6 +39,24 @@ def semOp (progS : Sexp) (valsS : List Sexp) : Sexp :=
         .list [.atom "bits", .list [.atom name, .str (bitsOf env rt vals)]]
   | _, _ => .list [.atom "model-decode-error"]
 
+mutual
+def outsideUniverse : JsVal → Bool
+  | .func | .sym | .protoObj _ => true
+  | .arr xs | .set xs | .typed _ xs => outsideL xs
+  | .obj ps => outsideP ps
+  | .map es => outsideE es
+  | _ => false
+def outsideL : List JsVal → Bool
+  | [] => false
+  | x :: xs => outsideUniverse x || outsideL xs
+def outsideP : List (String × JsVal) → Bool
+  | [] => false
+  | (_, v) :: ps => outsideUniverse v || outsideP ps
+def outsideE : List (JsVal × JsVal) → Bool
+  | [] => false
+  | (k, v) :: es => outsideUniverse k || outsideUniverse v || outsideE es
+end
+
 /-- second channel: TypeScript's meaning of the operator on the same values (`?` = not settled) -/
 def semSpec (progS : Sexp) (valsS : List Sexp) : Sexp :=
   match decSemProg progS, valsS.mapM decVal with
@@ -56,7 +74,9 @@ def semSpec (progS : Sexp) (valsS : List Sexp) : Sexp :=
     let noUnion := match e with
       | .exclude a _ => SubSpec.noObjectUnion decls 100 a
       | _ => true
-    .list [.list [.atom "spec", .list [.atom name, .str (String.ofList (vals.map fun v => match f v with
+    -- S9: a type that went through a semantic operator denotes a set of values of the engine's universe (its 13
+    -- tags); functions and symbols have no tag, so `unknown` / `any` inside such a type does not speak about them
+    .list [.list [.atom "spec", .list [.atom name, .str (String.ofList (vals.map fun v => match (if outsideUniverse v then none else f v) with
       | some true => '1' | some false => '0' | none => '?'))]],
       .list (.atom "hyp-failed" :: (if noUnion then [] else [Sexp.atom "NoObjectUnionOnLeft"]))]
   | _, _ => .list [.atom "spec-decode-error"]
